@@ -85,6 +85,14 @@ Definition try_lock_ex (s : st) (w : N) (h : handle) : option handle :=
   if others_hold s w (h_lock_ino h) then None
   else Some (mkH (h_phase h) (h_lock_ino h) LEx (h_lock_fds h) (h_file_shared h) (h_file_ino h) (h_toc h) (h_wpos h) (h_dirty h) (h_tpend h)).
 
+(* flock(fd, LOCK_UN) through ANY descriptor of a description -- the original or a dup/try_clone --
+   releases THE DESCRIPTION's lock: the flock state is the description's, not the descriptor's.
+   FileLock::acquire(&self.file, ..) / FileLock::unlocked / clone_handle all work on try_clone()s of
+   a handle's file, i.e. on descriptors of one of the handle's own descriptions; FileLock::drop and
+   FileLock::unlock issue exactly this call. *)
+Definition unlock_description (h : handle) : handle :=
+  mkH (h_phase h) (h_lock_ino h) LNone (h_lock_fds h) (h_file_shared h) (h_file_ino h) (h_toc h) (h_wpos h) (h_dirty h) (h_tpend h).
+
 (* close one descriptor of the lock description: the lock goes when the last one closes *)
 Definition close_lock_fd (h : handle) : handle :=
   let n := pred (h_lock_fds h) in
@@ -284,6 +292,30 @@ Definition mark_dirty (s : st) (w : N) : st :=
    lock table and the frame table it is a commit *)
 Definition vacuum_with (commit : st -> N -> st) (s : st) (w : N) : st := commit s w.
 
+(* operations of a live handle that write the file in place and touch neither a lock nor the path:
+   begin_batch / ensure_wal_capacity and grow_wal_region (shift_data_for_wal_growth moves the data
+   behind the log region; it issues NO flock call), end_batch, apply_ticket, enable_lex on a memory
+   that has lex enabled.  The lock table is unchanged -- this is what the correspondence checks after
+   each of them (flock probe on the path, child-process opens, strace of the flock calls). *)
+Definition touch (s : st) (w : N) : st := s.
+
+(* enable_vec: sets dirty (the next commit / Drop has work), nothing else *)
+Definition set_dirty_live (s : st) (w : N) : st := if is_live s w then mark_dirty s w else s.
+
+(* NOT the implementation -- the protocol violation the checks must catch: a temporary
+   `let _guard = FileLock::acquire(&self.file, path)?` inside a writer's operation.  acquire locks a
+   try_clone() of self.file; while self.file is a descriptor of the handle's lock description
+   (h_file_shared, i.e. before the handle's first commit) that is the SAME description: the
+   LOCK_EX is a no-op on a lock already held, and when the guard is dropped FileLock::drop unlocks
+   the description -- the writer's own exclusive lock is gone for the rest of its life. *)
+Definition touch_with_temporary_guard (s : st) (w : N) : st :=
+  match s_hs s w with
+  | Some h => match h_phase h with
+              | PLive => if h_file_shared h then set_h s w (Some (unlock_description h)) else s
+              | _ => s end
+  | None => s
+  end.
+
 Inductive op :=
 | OpenFd (w : N)        (* Memvid::open entered: open(path), try_clone *)
 | CreateFd (w : N)      (* Memvid::create entered: (truncate,) open(path), try_clone *)
@@ -297,7 +329,9 @@ Inductive op :=
 | Vacuum (w : N)
 | Drop (w : N)
 | Kill (w : N)
-| Doctor (w : N).       (* TryOpen w; repair + commit; Drop w *)
+| Doctor (w : N)        (* TryOpen w; repair + commit; Drop w *)
+| Touch (w : N)         (* begin_batch(pre-size) / log growth / end_batch / apply_ticket / enable_lex *)
+| EnableVec (w : N).
 
 Definition step_impl (s : st) (o : op) : st :=
   match o with
@@ -317,6 +351,8 @@ Definition step_impl (s : st) (o : op) : st :=
                 | Some _ => s
                 | None => drop_with commit_impl (mark_dirty (try_open_with open_lock_impl s w) w) w
                 end
+  | Touch w => touch s w
+  | EnableVec w => set_dirty_live s w
   end.
 
 Definition step_fixed (s : st) (o : op) : st :=
@@ -337,6 +373,8 @@ Definition step_fixed (s : st) (o : op) : st :=
                 | Some _ => s
                 | None => drop_with commit_fixed (mark_dirty (try_open_with open_lock_fixed s w) w) w
                 end
+  | Touch w => touch s w
+  | EnableVec w => set_dirty_live s w
   end.
 
 Definition run_impl (ops : list op) : st := fold_left step_impl ops init.
